@@ -78,6 +78,19 @@ class MyGlomErrArity(GlomError):
         self.b = b
 
 
+class MyGlomErrPrefix(GlomError):
+    """the usual idiom: the constructor builds the message from its argument (so cls(*e.args) is not e)"""
+    def __init__(self, what):
+        super().__init__('quota exceeded for %s' % (what,))
+        self.what = what
+
+
+class UserErrPrefix(Exception):
+    def __init__(self, what):
+        super().__init__('failed: %s' % (what,))
+        self.what = what
+
+
 class MyBase(BaseException):
     pass
 
@@ -98,6 +111,7 @@ CATALOGUE = [
     ('UserErr', lambda: UserErr('user', code=9)), ('KwOnlyErr', lambda: KwOnlyErr(code=1)), ('ArityErr', lambda: ArityErr('a', 'b')),
     ('MyGlomErr', lambda: MyGlomErr('mine', 2)), ('MyGlomErrInit', lambda: MyGlomErrInit(code=4)),
     ('MyGlomErrArity', lambda: MyGlomErrArity('a', 'b')),
+    ('MyGlomErrPrefix', lambda: MyGlomErrPrefix('disk')), ('UserErrPrefix', lambda: UserErrPrefix('disk')),
     ('DynErr(Exception)', lambda: _dyn(Exception)), ('DynErr(ValueError)', lambda: _dyn(ValueError)), ('DynErr(KeyError)', lambda: _dyn(KeyError)),
     ('KeyboardInterrupt', lambda: KeyboardInterrupt()), ('SystemExit', lambda: SystemExit(3)), ('MyBase', lambda: MyBase('base')),
 ]
@@ -288,7 +302,7 @@ def argument_position_faults(col, rng, n_exc):
         ('dict-key-spec', lambda: {sf: 'd'}), ('Check-default', lambda: Check(type=int, default=(sf,))),
         # (not Match(default=[Spec(f)]): inside Match a callable is a predicate, its exception is reported as a MatchError by design)
     ]
-    always = [c for c in CATALOGUE if c[0] in ('StopIteration', 'KeyError', 'TypeError', 'IndexError')]
+    always = [c for c in CATALOGUE if c[0] in ('StopIteration', 'KeyError', 'TypeError', 'IndexError', 'MyGlomErrPrefix')]
     for name, mk in shapes:
         for ename, mkexc in always + rng.sample(CATALOGUE, n_exc):
             probe = mkexc()
@@ -346,7 +360,7 @@ def target_raised_faults(col, rng, n_exc):
         ('T-starstar-method', lambda: T['wrap'].__starstar__().meth(1), ()),
         ('T-star-in-list', lambda: ('groups', [T.__star__().prop]), (AttributeError,)),
     ]
-    always = [c for c in CATALOGUE if c[0] in ('MyGlomErr', 'MyGlomErrInit', 'ValueError', 'UserErr')]
+    always = [c for c in CATALOGUE if c[0] in ('MyGlomErr', 'MyGlomErrInit', 'MyGlomErrPrefix', 'ValueError', 'UserErr')]
     for name, mk, native in shapes:
         for ename, mkexc in always + rng.sample(CATALOGUE, n_exc):
             probe = mkexc()
